@@ -190,9 +190,12 @@ class Sandbox:
             """ From now on, the thread running the student code must not
             touch the patches, the output or the recorded exception. """
             with self._execution_lock:
-                for context in self._context[first_new_context:]:
+                contexts = self._context[first_new_context:]
+                for context in contexts:
                     if not context.finished:
                         context.abandoned = True
+                # False: the code ended (and was recorded) just as the time ran out
+                return not contexts or any(context.abandoned for context in contexts)
 
         try:
             return timeout(self.allowed_time, self._execute,
